@@ -538,13 +538,17 @@ Lemma Good_cancel cfg ex s s' te o :
   SI s -> K (fun _ => True) s -> SI s' ->
   cl_cancelled s = None -> cl_cancelled s' = Some te -> te <= cl_now s + readTimeout ->
   cl_objs s' = cl_objs s -> cl_exited s' = cl_exited s -> cl_waiting_group s' = cl_waiting_group s ->
-  quiet o -> Good cfg ex s (s', o).
+  (forall id tt r, In (id, tt, r) (c_ret_times o) -> ex = Some id) -> c_exits o = [] -> Good cfg ex s (s', o).
 Proof.
-  intros Hsi Hk Hsi' Eca Eca' Hte Ho Eex Ewg Hq.
+  intros Hsi Hk Hsi' Eca Eca' Hte Ho Eex Ewg Hrets Hexits.
+  assert (HnoR : forall c, Some c <> ex -> NoRet c o).
+  { intros c Hc id tt r Hi ->. apply Hc. symmetry. eapply Hrets, Hi. }
   destruct (si_c2 s Hsi Eca) as (Hwg & Hex & Hcc).
   split; cbn [fst snd].
   - exact Hsi'.
-  - intros p [Hb1 Hb2] _. split; [apply quiet_RetT, Hq|]. split; [apply quiet_RetP, Hq|]. left.
+  - intros p [Hb1 Hb2] Hex0.
+    split; [intros id tt r Hi E; exfalso; eapply (HnoR _ Hex0); eassumption|].
+    split; [intros id tt Hi E; exfalso; eapply (HnoR _ Hex0); eassumption|]. left.
     rewrite Eca in Hb2. destruct Hb2 as (gp & tp & Hgp & Hcp & Hbp).
     pose proof (obj_bound_now _ _ _ _ _ _ _ Hsi Hbp) as Hv.
     split; [congruence|]. rewrite Eca'. split; [destruct Hv as [Hv _]; lia|]. split.
@@ -554,12 +558,571 @@ Proof.
         assert (g0 = gp) by (eapply (k_uo _ s Hk); eassumption). subst g0. rewrite Hgp in H0. injection H0 as <-.
         eapply Vt_pub_dcall, Hv.
       * rewrite Ewg, Hwg. intros c' [].
-  - intros c Hn _. split; [apply quiet_NoRet, Hq|]. intros H. apply Hn. revert H. unfold HasCall, has_obj, in_wg.
+  - intros c Hn Hex0. split; [apply HnoR, Hex0|]. intros H. apply Hn. revert H. unfold HasCall, has_obj, in_wg.
     rewrite Ho, Eex, Ewg. auto.
-  - intros T Hx. split; [|destruct Hq as [_ Hq]; rewrite Hq; intros te' []].
+  - intros T Hx. split; [|rewrite Hexits; intros te' []].
     unfold ExitB in *. rewrite Eex, Eca'. intros He. specialize (Hx He). rewrite Eca in Hx.
     destruct Hx as (g & t & Hg & call & key & st & n & sub & tm & -> & Htm & Hk7 & Hb).
     assert (Hin : In tm (cl_timers s)) by (apply (tmr_in s g tm); rewrite Htm; left; reflexivity).
     pose proof (si_t1 s Hsi tm Hin). lia.
   - intros He. left. congruence.
+Qed.
+
+Lemma SI_cancel f s s' te cc :
+  core s' = (List.filter f (cl_timers s), cl_next_seq s, cl_now s, cl_last_read s, Some te, cl_exited s,
+             cl_waiting_group s, cc, cl_next_obj s) -> cl_now s <= te -> SI s -> SI s'.
+Proof.
+  intros Hc Hte [H1 H2 H3 H4 H5 H6 H7]. core_inj Hc.
+  split; rewrite ?Etm, ?Esq, ?Enow, ?Elr, ?Eca, ?Eex, ?Ewg, ?Ecc, ?Eno; try assumption.
+  - intros tm Hi. apply filter_In in Hi. apply H1, Hi.
+  - intros tm Hi. apply filter_In in Hi. apply H2, Hi.
+  - apply NoDup_map_filter, H3.
+  - intros tm Hi. apply filter_In in Hi. apply H4, Hi.
+  - intros te' E _. injection E as <-. exact Hte.
+  - discriminate.
+Qed.
+
+(* ------------------------------------------------------------------ a transaction ends: its call returns *)
+Lemma Good_finish cfg s s' g t0 t r o now_r (ca' : option N) :
+  SI s -> K (fun _ => True) s -> SI s' ->
+  cl_cancelled s = None -> cl_cancelled s' = ca' -> cl_exited s' = cl_exited s -> cl_waiting_group s' = cl_waiting_group s ->
+  cl_objs s !! g = Some t0 -> call_of t = call_of t0 -> cl_objs s' = delete g (cl_objs s) ->
+  (ca' = None -> forall g', g' <> g -> tmr s' g' = tmr s g') ->
+  (forall te, ca' = Some te -> te <= now_r + readTimeout) ->
+  (forall tm, In tm (cl_timers s) -> ctimer_obj (ctm_kind tm) <> g -> now_r <= ctm_at tm) ->
+  (forall D pr pub, obj_bound cfg s g t0 D pr pub -> Vt cfg t now_r D pr pub) ->
+  (forall T, close_bound cfg s g t0 T -> exists te, ca' = Some te /\ te <= T) ->
+  c_ret_times o = match call_of t with Some c => [(c, now_r, r)] | None => [] end -> c_exits o = [] ->
+  Good cfg None s (s', o).
+Proof.
+  intros Hsi Hk Hsi' Eca Eca' Eex Ewg Hg Hcall Ho Htmr Hte Hnow Hvt Hclose Hret Hexits.
+  destruct (si_c2 s Hsi Eca) as (Hwg & Hex & Hcc).
+  assert (Hlo : forall g' t1, cl_objs s' !! g' = Some t1 -> cl_objs s !! g' = Some t1 /\ g' <> g).
+  { intros g' t1 H. rewrite Ho in H. apply lookup_delete_Some' in H. exact H. }
+  assert (Hlo' : forall g' t1, cl_objs s !! g' = Some t1 -> g' <> g -> cl_objs s' !! g' = Some t1).
+  { intros g' t1 H Hn. rewrite Ho, lookup_delete_ne by congruence. exact H. }
+  assert (Hother : forall gp tp D pr pub, cl_objs s !! gp = Some tp -> gp <> g -> obj_bound cfg s gp tp D pr pub ->
+            Vt cfg tp now_r D pr pub).
+  { intros gp tp D pr pub Hgp Hn Hb. destruct (obj_bound_Vt _ _ _ _ _ _ _ Hb) as (tm & Htm & Hv). apply Hv.
+    assert (Hin : In tm (tmr s gp)) by (rewrite Htm; left; reflexivity). apply tmr_in in Hin. destruct Hin as [Hin Hobj].
+    apply Hnow; [exact Hin|congruence]. }
+  assert (HnoR : forall c, call_of t0 <> Some c -> NoRet c o).
+  { intros c Hc id tt rr Hi ->. rewrite Hret, Hcall in Hi. destruct (call_of t0) as [c0|]; [|destruct Hi].
+    destruct Hi as [E|[]]. injection E as -> _ _. apply Hc. reflexivity. }
+  split; cbn [fst snd].
+  - exact Hsi'.
+  - intros p [Hb1 Hb2] _. rewrite Eca in Hb2. destruct Hb2 as (gp & tp & Hgp & Hcp & Hbp).
+    destruct (N.eq_dec gp g) as [->|Hn].
+    + rewrite Hg in Hgp. injection Hgp as <-. pose proof (Hvt _ _ _ Hbp) as Hv.
+      rewrite Hcall, Hcp in Hret.
+      split; [intros id tt rr Hi _; rewrite Hret in Hi; destruct Hi as [E|[]]; injection E as _ <- _; destruct Hv as [Hv _]; unfold readTimeout in Hv; lia|].
+      split.
+      { intros id tt Hi _ Hp. rewrite Hret in Hi. destruct Hi as [E|[]]. injection E as _ <- _. rewrite Hp in Hv.
+        destruct Hv as [_ Hv]. destruct t as [call att|call kind key st data n sub|call st n ms|mid pub'].
+        - destruct Hv as [Hv _]. discriminate Hv.
+        - apply Hv.
+        - discriminate Hv.
+        - contradiction. }
+      right. split; [unfold returned; rewrite Hret; cbn; rewrite N.eqb_refl; reflexivity|].
+      intros [_ [(g1 & t1 & H1 & Hc1)|(c' & Hi & _)]].
+      * apply Hlo in H1. destruct H1 as [H1 Hne]. apply Hne. eapply (k_uo _ s Hk); eassumption.
+      * rewrite Ewg, Hwg in Hi. destruct Hi.
+    + assert (HnR : NoRet (p_id p) o).
+      { apply HnoR. intros Hc. apply Hn. eapply (k_uo _ s Hk); eassumption. }
+      split; [intros id tt rr Hi E; exfalso; eapply HnR; eassumption|].
+      split; [intros id tt Hi E; exfalso; eapply HnR; eassumption|]. left.
+      split; [congruence|]. rewrite Eca'. destruct ca' as [te|].
+      * pose proof (Hother _ _ _ _ _ Hgp Hn Hbp) as Hv. specialize (Hte te eq_refl).
+        split; [destruct Hv as [Hv _]; lia|]. split; [left; exists gp, tp; auto|].
+        intros Hp. rewrite Hp in Hv. split; [|rewrite Ewg, Hwg; intros c' []].
+        intros g1 t1 H1 Hc1. apply Hlo in H1. destruct H1 as [H1 _].
+        assert (g1 = gp) by (eapply (k_uo _ s Hk); eassumption). subst g1. rewrite Hgp in H1. injection H1 as <-.
+        eapply Vt_pub_dcall, Hv.
+      * exists gp, tp. split; [auto|]. split; [exact Hcp|]. eapply obj_bound_tmr; [|exact Hbp]. apply Htmr; auto.
+  - intros c Hn _. split.
+    + apply HnoR. intros Hc. apply Hn. split; [exact Hex|]. left. exists g, t0. auto.
+    + intros [H1 H2]. apply Hn. split; [congruence|]. destruct H2 as [(g1 & t1 & H3 & Hc1)|H2].
+      * apply Hlo in H3. left. exists g1, t1. tauto.
+      * right. unfold in_wg in *. rewrite <- Ewg. exact H2.
+  - intros T Hx. split; [|rewrite Hexits; intros te []].
+    unfold ExitB in *. rewrite Eex, Eca'. intros He. specialize (Hx He). rewrite Eca in Hx.
+    destruct Hx as (gx & tx & Hgx & Hbx). destruct (N.eq_dec gx g) as [->|Hn].
+    + rewrite Hg in Hgx. injection Hgx as <-. destruct (Hclose T Hbx) as (te & -> & Hle). exact Hle.
+    + destruct ca' as [te|].
+      * specialize (Hte te eq_refl). destruct Hbx as (call & key & st & n & sub & tm & -> & Htm & Hk7 & Hb).
+        assert (Hin : In tm (tmr s gx)) by (rewrite Htm; left; reflexivity). apply tmr_in in Hin. destruct Hin as [Hin Hobj].
+        specialize (Hnow tm Hin ltac:(congruence)). lia.
+      * exists gx, tx. split; [auto|]. eapply close_bound_tmr; [|exact Hbx]. apply Htmr; auto.
+  - intros He. left. congruence.
+Qed.
+
+(* ------------------------------------------------------------------ facts about the primitives *)
+Lemma finish_facts s0 g t : cl_objs s0 !! g = Some t ->
+  cl_objs (c_finish_obj s0 g) = delete g (cl_objs s0) /\
+  cl_timers (c_finish_obj s0 g) = List.filter (fun u => negb (ctimer_obj (ctm_kind u) =? g)) (cl_timers s0) /\
+  cl_next_seq (c_finish_obj s0 g) = cl_next_seq s0 /\ cl_now (c_finish_obj s0 g) = cl_now s0 /\
+  cl_last_read (c_finish_obj s0 g) = cl_last_read s0 /\ cl_cancelled (c_finish_obj s0 g) = cl_cancelled s0 /\
+  cl_exited (c_finish_obj s0 g) = cl_exited s0 /\ cl_waiting_group (c_finish_obj s0 g) = cl_waiting_group s0 /\
+  cl_conn_closed (c_finish_obj s0 g) = cl_conn_closed s0 /\ cl_next_obj (c_finish_obj s0 g) = cl_next_obj s0.
+Proof.
+  intros H. split; [apply c_finish_obj_objs|]. pose proof (c_finish_obj_core s0 g t H) as Hc. unfold core in Hc.
+  injection Hc as E1 E2 E3 E4 E5 E6 E7 E8 E9. repeat split; assumption.
+Qed.
+
+Lemma cancel_api_facts s : cl_cancelled s = None -> SI s ->
+  SI (c_cancel_from_api s) /\ cl_objs (c_cancel_from_api s) = cl_objs s /\
+  cl_cancelled (c_cancel_from_api s) = Some (next_poll (cl_last_read s) (cl_now s)) /\
+  cl_exited (c_cancel_from_api s) = cl_exited s /\ cl_waiting_group (c_cancel_from_api s) = cl_waiting_group s.
+Proof.
+  intros Hc Hsi. unfold c_cancel_from_api. rewrite Hc. unfold c_stop_ctx_timers. cbn. split; [|auto].
+  eapply (SI_cancel (fun t => negb (ctx_bound (ctm_kind t))) s); [reflexivity| |exact Hsi].
+  pose proof (next_poll_bounds _ _ (si_lr s Hsi)). lia.
+Qed.
+
+Lemma cancel_loop_facts s e cc : cl_cancelled s = None -> SI s ->
+  SI (c_cancel_from_loop s e <| cl_conn_closed := cc |>) /\ SI (c_cancel_from_loop s e) /\
+  cl_objs (c_cancel_from_loop s e) = cl_objs s /\
+  cl_cancelled (c_cancel_from_loop s e) = Some (cl_now s) /\
+  cl_exited (c_cancel_from_loop s e) = cl_exited s /\ cl_waiting_group (c_cancel_from_loop s e) = cl_waiting_group s /\
+  cl_now (c_cancel_from_loop s e) = cl_now s /\ cl_timers (c_cancel_from_loop s e) = List.filter (fun t => negb (ctx_bound (ctm_kind t))) (cl_timers s).
+Proof.
+  intros Hc Hsi. unfold c_cancel_from_loop. rewrite Hc. unfold c_stop_ctx_timers. cbn.
+  split; [|split; [|repeat split]].
+  - eapply (SI_cancel (fun t => negb (ctx_bound (ctm_kind t))) s); [reflexivity|lia|exact Hsi].
+  - eapply (SI_cancel (fun t => negb (ctx_bound (ctm_kind t))) s); [reflexivity|lia|exact Hsi].
+Qed.
+
+Lemma tmr_snoc s s' tm g : cl_timers s' = cl_timers s ++ [tm] ->
+  tmr s' g = tmr s g ++ (if ctimer_obj (ctm_kind tm) =? g then [tm] else []).
+Proof. intros E. unfold tmr. rewrite E, filter_app. reflexivity. Qed.
+
+Lemma SI_snoc s s' k d cc no' :
+  core s' = (cl_timers s ++ [{| ctm_at := cl_now s + d; ctm_seq := cl_next_seq s; ctm_kind := k |}], cl_next_seq s + 1,
+             cl_now s, cl_last_read s, cl_cancelled s, cl_exited s, cl_waiting_group s, cc, no') ->
+  (cl_cancelled s = None -> cc = false) -> cl_next_obj s <= no' -> ctimer_obj k < no' -> SI s -> SI s'.
+Proof.
+  intros Hc Hcc Hno Hk [H1 H2 H3 H4 H5 H6 H7]. core_inj Hc.
+  split; rewrite ?Etm, ?Esq, ?Enow, ?Elr, ?Eca, ?Eex, ?Ewg, ?Ecc, ?Eno; try assumption.
+  - intros tm Hi. apply in_app_or in Hi. destruct Hi as [Hi|[<-|[]]]; [apply H1, Hi|cbn; lia].
+  - intros tm Hi. apply in_app_or in Hi. destruct Hi as [Hi|[<-|[]]]; [specialize (H2 tm Hi); lia|cbn; lia].
+  - rewrite map_app. cbn [map ctm_seq]. apply NoDup_snoc; [exact H3|].
+    intros Hx. apply in_map_iff in Hx. destruct Hx as (tm & E & Hi). specialize (H2 tm Hi). lia.
+  - intros tm Hi. apply in_app_or in Hi. destruct Hi as [Hi|[<-|[]]]; [specialize (H4 tm Hi); lia|exact Hk].
+  - intros Hca. destruct (H7 Hca) as (A & B & C). auto.
+Qed.
+
+Lemma connect_attempt_facts cfg s call n : wf_cl_cfg cfg -> cl_conn_closed s = false ->
+  cl_objs (fst (connect_attempt cfg s call n)) = <[cl_next_obj s := CxConnect call n]> (cl_objs s) /\
+  core (fst (connect_attempt cfg s call n)) =
+    (cl_timers s ++ [{| ctm_at := cl_now s + k_ctimeout cfg; ctm_seq := cl_next_seq s; ctm_kind := CtmConnect (cl_next_obj s) |}],
+     cl_next_seq s + 1, cl_now s, cl_last_read s, cl_cancelled s, cl_exited s, cl_waiting_group s, cl_conn_closed s, cl_next_obj s + 1) /\
+  quiet (snd (connect_attempt cfg s call n)).
+Proof.
+  intros Hcfg Hcc. unfold connect_attempt, c_new_obj. cbv zeta.
+  match goal with |- context [c_send ?X (connect_pkt cfg)] =>
+    rewrite (c_send_ok X (connect_pkt cfg)) by (first [exact Hcc|apply (pack_size _ (wf_connect_pkt cfg Hcfg))]) end.
+  destruct (len (k_user cfg) =? 0).
+  - cbn [fst snd]. split; [reflexivity|]. split; [reflexivity|]. split; reflexivity.
+  - match goal with |- context [c_send ?X (auth_pkt cfg)] =>
+      rewrite (c_send_ok X (auth_pkt cfg)) by (first [exact Hcc|apply (pack_size _ (wf_auth_pkt cfg Hcfg))]) end.
+    cbn [fst snd]. split; [reflexivity|]. split; [reflexivity|]. split; reflexivity.
+Qed.
+
+Lemma filter_none_fresh s g : SI s -> cl_next_obj s <= g ->
+  List.filter (fun u => negb (ctimer_obj (ctm_kind u) =? g)) (cl_timers s) = cl_timers s.
+Proof.
+  intros Hsi Hg. pose proof (si_t4 s Hsi) as H4. induction (cl_timers s) as [|tm l IH]; [reflexivity|].
+  cbn [List.filter]. assert (E : (ctimer_obj (ctm_kind tm) =? g) = false).
+  { apply N.eqb_neq. specialize (H4 tm ltac:(left; reflexivity)). lia. }
+  rewrite E. cbn [negb]. f_equal. apply IH. intros tm' Hi. apply H4. right. exact Hi.
+Qed.
+
+(* ------------------------------------------------------------------ complete *)
+Section Complete.
+  Variables (cfg : cl_cfg) (s s0 : cl_state) (g : N) (t0 t : ctxn) (r : cres) (ic : bool).
+  Hypothesis Hcfg : wf_cl_cfg cfg.
+  Hypothesis Hsi : SI s.
+  Hypothesis Hk : K (fun _ => True) s.
+  Hypothesis Hia : InvA false s.
+  Hypothesis Hsi0 : SI s0.
+  Hypothesis Eca : cl_cancelled s0 = cl_cancelled s.
+  Hypothesis Eex : cl_exited s0 = cl_exited s.
+  Hypothesis Ewg : cl_waiting_group s0 = cl_waiting_group s.
+  Hypothesis Eno : cl_next_obj s0 = cl_next_obj s.
+  Hypothesis Hg : cl_objs s !! g = Some t0.
+  Hypothesis Ho : cl_objs s0 = <[g := t]> (cl_objs s).
+  Hypothesis Hcall : call_of t = call_of t0.
+  Hypothesis Hdc : dcall t = dcall t0.
+  Hypothesis Htmr : forall g', g' <> g -> tmr s0 g' = tmr s g'.
+
+  Let s1 := c_finish_obj s0 g.
+  Lemma Hg0 : cl_objs s0 !! g = Some t. Proof. rewrite Ho. apply lookup_insert. Qed.
+
+  Lemma cpl_s1 :
+    cl_objs s1 = delete g (cl_objs s) /\
+    cl_timers s1 = List.filter (fun u => negb (ctimer_obj (ctm_kind u) =? g)) (cl_timers s0) /\
+    cl_next_seq s1 = cl_next_seq s0 /\ cl_now s1 = cl_now s0 /\
+    cl_last_read s1 = cl_last_read s0 /\ cl_cancelled s1 = cl_cancelled s /\
+    cl_exited s1 = cl_exited s /\ cl_waiting_group s1 = cl_waiting_group s /\
+    cl_conn_closed s1 = cl_conn_closed s0 /\ cl_next_obj s1 = cl_next_obj s /\ SI s1 /\
+    (forall g', g' <> g -> tmr s1 g' = tmr s g').
+  Proof.
+    destruct (finish_facts s0 g t Hg0) as (A & B & C & D & E & F & G & H & I & J). fold s1 in A, B, C, D, E, F, G, H, I, J.
+    rewrite Ho, delete_insert_delete in A.
+    split; [exact A|]. split; [exact B|]. split; [exact C|]. split; [exact D|]. split; [exact E|]. split; [congruence|].
+    split; [congruence|]. split; [congruence|]. split; [exact I|]. split; [congruence|]. split.
+    - apply SI_finish, Hsi0.
+    - intros g' Hn. unfold s1. rewrite tmr_finish_other by exact Hn. apply Htmr, Hn.
+  Qed.
+
+  Lemma cpl_now_le : forall tm, In tm (cl_timers s) -> ctimer_obj (ctm_kind tm) <> g -> cl_now s0 <= ctm_at tm.
+  Proof.
+    intros tm Hi Hn. apply (si_t1 s0 Hsi0).
+    assert (Hin : In tm (tmr s (ctimer_obj (ctm_kind tm)))) by (apply tmr_in; auto).
+    rewrite <- Htmr in Hin by exact Hn. apply tmr_in in Hin. apply Hin.
+  Qed.
+
+  (* the group context is not cancelled *)
+  Hypothesis Hca : cl_cancelled s = None.
+  Hypothesis Hvt : forall D pr pub, obj_bound cfg s g t0 D pr pub -> Vt cfg t (cl_now s0) D pr pub.
+  Hypothesis Hclose : forall T, close_bound cfg s g t0 T -> t = t0 /\ (r = ROk \/ r = RNoRetries) /\ cl_now s0 <= T.
+
+  Lemma cpl_plain call r' : call_of t = Some call \/ (call_of t = None /\ False) ->
+    (forall T, close_bound cfg s g t0 T -> False) ->
+    call_of t = Some call -> Good cfg None s (s1, ret s1 call r').
+  Proof.
+    intros _ Hnc Hc. destruct cpl_s1 as (A & B & C & D & E & F & G & H & I & J & Ksi & L).
+    apply (Good_finish cfg s s1 g t0 t r' _ (cl_now s0) None Hsi Hk Ksi Hca (eq_trans F Hca) G H Hg Hcall A).
+    - intros _. exact L.
+    - discriminate.
+    - apply cpl_now_le.
+    - exact Hvt.
+    - intros T Hb. destruct (Hnc T Hb).
+    - rewrite Hc. unfold ret. cbn. rewrite D. reflexivity.
+    - reflexivity.
+  Qed.
+
+  Lemma complete_Good : Good cfg None s (complete cfg s0 g t r ic).
+  Proof.
+    destruct cpl_s1 as (A & B & C & D & E & F & G & H & I & J & Ksi & L).
+    destruct (si_c2 s Hsi Hca) as (Hwg & Hex & _).
+    assert (Hcc0 : cl_conn_closed s0 = false) by (apply (si_c2 s0 Hsi0); congruence).
+    pose proof cpl_plain as Hpl. pose proof cpl_now_le as Hnl.
+    unfold complete. cbv zeta. fold s1. rewrite F, Hca.
+    destruct t as [call att|call kind key st data n sub|call st n ms|mid pub'] eqn:Et.
+    - (* Connect *)
+      assert (Hnc : forall T, close_bound cfg s g t0 T -> False).
+      { intros T Hb. destruct (Hclose T Hb) as (E' & _). destruct Hb as (c' & k' & st' & n' & sub' & tm & -> & _). discriminate E'. }
+      assert (Hplain : forall r', Good cfg None s (s1, ret s1 call r')).
+      { intros r'. apply Hpl; auto. }
+      destruct r; try apply Hplain.
+      destruct (att + 1 <=? k_rcount cfg) eqn:Eatt; [|apply Hplain]. apply N.leb_le in Eatt.
+      destruct (connect_attempt_facts cfg s1 call (att + 1) Hcfg ltac:(congruence)) as (Fo & Fc & Fq).
+      destruct (connect_attempt cfg s1 call (att + 1)) as [s2 o2]. cbn [fst snd] in Fo, Fc, Fq.
+      assert (Hsi2 : SI s2).
+      { eapply (SI_snoc s1 s2); [exact Fc|intros _; congruence|lia|cbn; lia|exact Ksi]. }
+      unfold core in Fc. injection Fc as F1 F2 F3 F4 F5 F6 F7 F8 F9.
+      refine (Good_local cfg None s s2 g t0 (cl_next_obj s1) (CxConnect call (att + 1)) o2 Hsi2 _ _ _ Hg _ _ _ _ _ _ _ Fq).
+      + congruence.
+      + congruence.
+      + congruence.
+      + rewrite Fo, A. reflexivity.
+      + right. destruct (cl_objs s !! cl_next_obj s1) as [tx|] eqn:Ex; [|reflexivity].
+        pose proof (ia_lt false s Hia _ _ Ex). lia.
+      + rewrite <- Hcall. reflexivity.
+      + rewrite <- Hdc. reflexivity.
+      + intros g' Hn1 Hn2. rewrite (tmr_snoc s1 s2 _ g' F1). cbn [ctm_kind ctimer_obj].
+        assert (E' : (cl_next_obj s1 =? g') = false) by (apply N.eqb_neq; congruence). rewrite E', app_nil_r. apply L, Hn1.
+      + intros _ D0 pr pub Hb. specialize (Hvt D0 pr pub Hb). destruct Hvt as (Hv1 & Hv2 & Hv3).
+        eexists. split.
+        * rewrite (tmr_snoc s1 s2 _ _ F1). cbn [ctm_kind ctimer_obj]. rewrite N.eqb_refl.
+          rewrite (tmr_nil_fresh s1 _ Ksi) by lia. reflexivity.
+        * cbn [ctm_kind ctm_at]. split; [reflexivity|]. split; [exact Hv2|]. rewrite (crest_step cfg att Eatt) in Hv3. lia.
+      + intros _ T Hb. destruct (Hnc T Hb).
+    - (* Retry *)
+      destruct (kind =? 6) eqn:E6.
+      { apply N.eqb_eq in E6. subst kind.
+        assert (Hnc : forall T, close_bound cfg s g t0 T -> False).
+        { intros T Hb. destruct (Hclose T Hb) as (E' & _). destruct Hb as (c' & k' & st' & n' & sub' & tm & -> & _). discriminate E'. }
+        assert (Hcan : Good cfg None s (c_cancel_from_api s1, ret s1 call ROk)).
+        { destruct (cancel_api_facts s1 ltac:(congruence) Ksi) as (Csi & Co & Cca & Cex & Cwg).
+          apply (Good_finish cfg s _ g t0 _ ROk _ (cl_now s0) (Some (next_poll (cl_last_read s1) (cl_now s1))) Hsi Hk Csi Hca Cca
+                   (eq_trans Cex G) (eq_trans Cwg H) Hg Hcall (eq_trans Co A)).
+          - discriminate.
+          - intros te E'. injection E' as <-. pose proof (next_poll_bounds _ _ (si_lr s1 Ksi)). lia.
+          - apply Hnl.
+          - exact Hvt.
+          - intros T Hb. destruct (Hnc T Hb).
+          - cbn. rewrite D. reflexivity.
+          - reflexivity. }
+        destruct r; try exact Hcan; apply Hpl; auto. }
+      destruct (kind =? 7) eqn:E7.
+      { apply N.eqb_eq in E7. subst kind.
+        assert (Hcan : Good cfg None s (c_cancel_from_loop s1 true <| cl_conn_closed := true |>, ret s1 call ROk)).
+        { destruct (cancel_loop_facts s1 true true ltac:(congruence) Ksi) as (Csi & _ & Co & Cca & Cex & Cwg & _).
+          apply (Good_finish cfg s _ g t0 _ ROk _ (cl_now s0) (Some (cl_now s1)) Hsi Hk Csi Hca Cca
+                   (eq_trans Cex G) (eq_trans Cwg H) Hg Hcall (eq_trans Co A)).
+          - discriminate.
+          - intros te E'. injection E' as <-. lia.
+          - apply Hnl.
+          - exact Hvt.
+          - intros T Hb. destruct (Hclose T Hb) as (_ & _ & Hle). exists (cl_now s1). split; [reflexivity|lia].
+          - cbn. rewrite D. reflexivity.
+          - reflexivity. }
+        assert (Hnc : r <> ROk -> r <> RNoRetries -> forall T, close_bound cfg s g t0 T -> False).
+        { intros H1 H2 T Hb. destruct (Hclose T Hb) as (_ & [E'|E'] & _); contradiction. }
+        destruct r; try exact Hcan; (apply Hpl; [auto|apply Hnc; discriminate|reflexivity]). }
+      apply Hpl; [auto| |reflexivity].
+      intros T Hb. destruct (Hclose T Hb) as (E' & _). destruct Hb as (c' & k' & st' & n' & sub' & tm & -> & _).
+      injection E' as _ -> _. discriminate E7.
+    - (* Sleep *)
+      apply Hpl; [auto| |reflexivity].
+      intros T Hb. destruct (Hclose T Hb) as (E' & _). destruct Hb as (c' & k' & st' & n' & sub' & tm & -> & _). discriminate E'.
+    - (* a received QoS 2 PUBLISH *)
+      apply (Good_finish cfg s s1 g t0 _ r [] (cl_now s0) None Hsi Hk Ksi Hca (eq_trans F Hca) G H Hg Hcall A).
+      + intros _. exact L.
+      + discriminate.
+      + apply Hnl.
+      + exact Hvt.
+      + intros T Hb. destruct (Hclose T Hb) as (E' & _). destruct Hb as (c' & k' & st' & n' & sub' & tm & -> & _). discriminate E'.
+      + reflexivity.
+      + reflexivity.
+  Qed.
+End Complete.
+
+(* ------------------------------------------------------------------ complete after the cancellation; exit *)
+Lemma txn_call_ex t c : call_of t = Some c -> exists c', In c' (txn_call t) /\ c' / 2 = c.
+Proof.
+  destruct t as [call att|call kind key st data n sub|call st n ms|mid pub']; cbn [call_of txn_call]; intros E; try discriminate;
+    injection E as <-.
+  - exists (2 * call). split; [left; reflexivity|lia].
+  - destruct (_ || _); [exists (2 * call + 1)|exists (2 * call)]; (split; [left; reflexivity|lia]).
+  - exists (2 * call). split; [left; reflexivity|lia].
+Qed.
+
+Lemma SI_set_wg s l te : cl_cancelled s = Some te -> SI s -> SI (s <| cl_waiting_group := l |>).
+Proof. intros Hc [H1 H2 H3 H4 H5 H6 H7]. split; cbn; try assumption. rewrite Hc. discriminate. Qed.
+
+Lemma complete_Good_c cfg s s0 g t0 t r ic te :
+  SI s0 -> cl_cancelled s = Some te ->
+  cl_cancelled s0 = cl_cancelled s -> cl_exited s0 = cl_exited s -> cl_waiting_group s0 = cl_waiting_group s ->
+  cl_objs s !! g = Some t0 -> cl_objs s0 = <[g := t]> (cl_objs s) -> call_of t = call_of t0 -> dcall t = dcall t0 ->
+  Good cfg None s (complete cfg s0 g t r ic).
+Proof.
+  intros Hsi0 Hca Eca Eex Ewg Hg Ho Hcall Hdc.
+  assert (Hg0 : cl_objs s0 !! g = Some t) by (rewrite Ho; apply lookup_insert).
+  destruct (finish_facts s0 g t Hg0) as (A & B & C & D & E & F & G & H & I & J).
+  rewrite Ho, delete_insert_delete in A. rewrite Ewg in H.
+  unfold complete. cbv zeta. rewrite F, Eca, Hca, G, Eex.
+  set (s1 := c_finish_obj s0 g) in *.
+  assert (Hsi1 : SI s1) by apply SI_finish, Hsi0.
+  assert (Hlo : forall g' t1, cl_objs s1 !! g' = Some t1 -> cl_objs s !! g' = Some t1 /\ g' <> g).
+  { intros g' t1 Hl. rewrite A in Hl. apply lookup_delete_Some' in Hl. exact Hl. }
+  destruct (cl_exited s) eqn:Hexs.
+  { (* after the exit nothing is pending *)
+    split; cbn [fst snd].
+    - exact Hsi1.
+    - intros p [Hb _]. congruence.
+    - intros c _ _. split; [apply NoRet_nil|]. intros [Hx _]. congruence.
+    - intros T _. split; [intros Hx; congruence|intros te' []].
+    - intros _. left. exact Hexs. }
+  split; cbn [fst snd].
+  - eapply SI_set_wg; [|exact Hsi1]. rewrite F, Eca. exact Hca.
+  - intros p [Hb1 Hb2] _. rewrite Hca in Hb2. destruct Hb2 as (Hte & Hhas & Hpub).
+    split; [apply RetT_nil|]. split; [apply RetP_nil|]. left. split; [cbn; congruence|]. cbn [cl_cancelled set]. rewrite F, Eca, Hca.
+    split; [exact Hte|]. split.
+    + destruct Hhas as [(g1 & t1 & H1 & Hc1)|(c' & Hi & Hc')].
+      * destruct (N.eq_dec g1 g) as [->|Hn].
+        -- right. rewrite Hg in H1. injection H1 as <-. destruct (txn_call_ex t (p_id p) ltac:(congruence)) as (c' & Hi & Hc').
+           exists c'. split; [|exact Hc']. cbn. apply in_or_app. right. exact Hi.
+        -- left. exists g1, t1. split; [|exact Hc1]. cbn. rewrite A, lookup_delete_ne by congruence. exact H1.
+      * right. exists c'. split; [|exact Hc']. cbn. apply in_or_app. left. rewrite H. exact Hi.
+    + intros Hp. destruct (Hpub Hp) as [Hp1 Hp2]. split.
+      * intros g1 t1 H1 Hc1. cbn in H1. apply Hlo in H1. eapply Hp1; [apply H1|exact Hc1].
+      * intros c' Hi Hc'. cbn in Hi. apply in_app_or in Hi. destruct Hi as [Hi|Hi]; [apply Hp2; [rewrite <- H; exact Hi|exact Hc']|].
+        destruct (txn_call_spec t c' Hi) as (c & Hc & Hc2 & Hodd).
+        destruct (N.eq_dec (c' mod 2) 0) as [E0|E0]; [exact E0|]. specialize (Hodd E0).
+        assert (Hd0 : dcall t0 = None) by (eapply Hp1; [exact Hg|congruence]). congruence.
+  - intros c Hn _. split; [apply NoRet_nil|]. intros [_ Hh]. apply Hn. split; [exact Hexs|].
+    destruct Hh as [(g1 & t1 & H1 & Hc1)|(c' & Hi & Hc')].
+    + cbn in H1. apply Hlo in H1. left. exists g1, t1. tauto.
+    + cbn in Hi. apply in_app_or in Hi. destruct Hi as [Hi|Hi]; [right; exists c'; split; [rewrite <- H; exact Hi|exact Hc']|].
+      destruct (txn_call_spec t c' Hi) as (c0 & Hc & Hc2 & _). left. exists g, t0. split; [exact Hg|congruence].
+  - intros T Hx. split; [|intros te' []]. unfold ExitB in *. cbn. rewrite F, Eca, Hca, G, Eex. rewrite Hca in Hx. intros _. exact (Hx Hexs).
+  - cbn. rewrite G, Eex, Hexs. discriminate.
+Qed.
+
+(* the returns of c_exit *)
+Lemma exit_rets te (f : N -> list cl_out) (ge : bool) calls :
+  forall id tt r, In (id, tt, r) (c_ret_times (calls ≫= (fun c => if c mod 2 =? 0 then [CoRet te (c / 2) RCancelled]
+                                     else [CoRet te (c / 2) (if ge then RCancelled else ROk)]))) <->
+    exists c', In c' calls /\ id = c' / 2 /\ tt = te /\ r = (if c' mod 2 =? 0 then RCancelled else if ge then RCancelled else ROk).
+Proof.
+  induction calls as [|c l IH]; intros id tt r.
+  - cbn. split; [intros []|intros (c' & [] & _)].
+  - cbn [mbind list_bind]. rewrite c_ret_times_app, in_app_iff, IH. split.
+    + intros [H|(c' & Hi & Hr)]; [|exists c'; split; [right; exact Hi|exact Hr]].
+      exists c. split; [left; reflexivity|]. destruct (c mod 2 =? 0); cbn in H; destruct H as [E|[]]; injection E as <- <- <-; auto.
+    + intros (c' & [->|Hi] & -> & -> & ->); [left|right; exists c'; auto].
+      destruct (c' mod 2 =? 0); cbn; left; reflexivity.
+Qed.
+
+Lemma exit_Good cfg s te : SI s -> cl_cancelled s = Some te -> cl_exited s = false ->
+  (forall tm, In tm (cl_timers s) -> te <= ctm_at tm) -> Good cfg None s (c_exit s te).
+Proof.
+  intros Hsi Hca Hex Htm. unfold c_exit. cbv zeta.
+  set (calls := (map snd (map_to_list (cl_objs s)) ≫= txn_call) ++ cl_waiting_group s).
+  assert (Hcalls : forall c', In c' calls <-> (exists g t, cl_objs s !! g = Some t /\ In c' (txn_call t)) \/ In c' (cl_waiting_group s)).
+  { intros c'. unfold calls. rewrite in_app_iff. apply or_iff_compat_r.
+    rewrite <- elem_of_list_In, elem_of_list_bind. split.
+    - intros (t & Hc & Ht). rewrite elem_of_list_In in Ht. apply in_map_iff in Ht. destruct Ht as ([g t1] & E & Hgt). cbn [snd] in E. subst t1.
+      rewrite <- elem_of_list_In, elem_of_map_to_list in Hgt. exists g, t. rewrite <- elem_of_list_In. auto.
+    - intros (g & t & Hg & Hi). exists t. split; [rewrite elem_of_list_In; exact Hi|].
+      rewrite elem_of_list_In. apply in_map_iff. exists (g, t). split; [reflexivity|]. rewrite <- elem_of_list_In. apply elem_of_map_to_list, Hg. }
+  assert (Hrets : forall id tt r, In (id, tt, r) (c_ret_times (CoExit te :: calls ≫= (fun c => if c mod 2 =? 0 then [CoRet te (c / 2) RCancelled]
+                                     else [CoRet te (c / 2) (if cl_group_err s then RCancelled else ROk)]))) <->
+            exists c', In c' calls /\ id = c' / 2 /\ tt = te /\ r = (if c' mod 2 =? 0 then RCancelled else if cl_group_err s then RCancelled else ROk)).
+  { intros id tt r. apply (exit_rets te (fun _ => []) (cl_group_err s) calls). }
+  assert (Hhas : forall c, HasCall s c <-> exists c', In c' calls /\ c' / 2 = c).
+  { intros c. unfold HasCall. rewrite Hex. split.
+    - intros [_ [(g & t & Hg & Hc)|(c' & Hi & Hc')]].
+      + destruct (txn_call_ex t c Hc) as (c' & Hi & Hc'). exists c'. split; [|exact Hc']. apply Hcalls. left. exists g, t. auto.
+      + exists c'. split; [|exact Hc']. apply Hcalls. right. exact Hi.
+    - intros (c' & Hi & Hc'). split; [reflexivity|]. apply Hcalls in Hi. destruct Hi as [(g & t & Hg & Hi)|Hi].
+      + left. destruct (txn_call_spec t c' Hi) as (c0 & Hc0 & E & _). exists g, t. split; [exact Hg|congruence].
+      + right. exists c'. auto. }
+  split; cbn [fst snd].
+  - destruct Hsi as [H1 H2 H3 H4 H5 H6 H7]. split; cbn; try assumption.
+    + specialize (H6 te Hca Hex). lia.
+    + discriminate.
+    + rewrite Hca. discriminate.
+  - intros p [Hb1 Hb2] _. rewrite Hca in Hb2. destruct Hb2 as (Hte & Hh & Hpub). split; [|split].
+    + intros id tt r Hi _. apply Hrets in Hi. destruct Hi as (c' & _ & _ & -> & _). exact Hte.
+    + intros id tt Hi Eid Hp. apply Hrets in Hi. destruct Hi as (c' & Hi & -> & -> & Hr). exfalso.
+      destruct (Hpub Hp) as [Hp1 Hp2]. destruct (c' mod 2 =? 0) eqn:Em; [discriminate Hr|]. apply N.eqb_neq in Em.
+      apply Hcalls in Hi. destruct Hi as [(g & t & Hg & Hi)|Hi].
+      * destruct (txn_call_spec t c' Hi) as (c0 & Hc0 & E & Hodd). specialize (Hodd Em).
+        assert (dcall t = None) by (eapply Hp1; [exact Hg|congruence]). congruence.
+      * apply Em. apply Hp2; [exact Hi|congruence].
+    + right. split; [|intros [Hx _]; cbn in Hx; discriminate].
+      assert (Hc : HasCall s (p_id p)) by (split; [exact Hex|exact Hh]). apply Hhas in Hc. destruct Hc as (c' & Hi & Hc').
+      unfold returned. apply existsb_exists. exists (p_id p, te, if c' mod 2 =? 0 then RCancelled else if cl_group_err s then RCancelled else ROk).
+      split; [|apply N.eqb_refl]. apply Hrets. exists c'. auto.
+  - intros c Hn _. split; [|intros [Hx _]; cbn in Hx; discriminate].
+    intros id tt r Hi ->. apply Hrets in Hi. destruct Hi as (c' & Hi & E & _). apply Hn, Hhas. exists c'. auto.
+  - intros T Hx. split; [intros Hx'; cbn in Hx'; discriminate|].
+    specialize (Hx Hex). rewrite Hca in Hx. intros te' Hi. cbn in Hi.
+    destruct Hi as [<-|Hi]; [exact Hx|]. exfalso. clear -Hi. revert Hi.
+    generalize calls. intros l. induction l as [|c l IH]; [intros []|]. cbn [mbind list_bind]. rewrite c_exits_app, in_app_iff.
+    intros [H|H]; [|apply IH, H]. destruct (c mod 2 =? 0); cbn in H; exact H.
+  - intros _. right. discriminate.
+Qed.
+
+(* ------------------------------------------------------------------ API calls *)
+Lemma start_retry_facts cfg s call kind key st p bt s' g o ok :
+  start_retry cfg s call kind key st p bt = (s', g, o, ok) ->
+  g = cl_next_obj s /\ cl_objs s' = <[g := CxRetry call kind key st p 0 call]> (cl_objs s) /\
+  core s' = (cl_timers s ++ [{| ctm_at := cl_now s + k_rdelay cfg; ctm_seq := cl_next_seq s; ctm_kind := CtmRetry g |}],
+             cl_next_seq s + 1, cl_now s, cl_last_read s, cl_cancelled s, cl_exited s, cl_waiting_group s,
+             cl_conn_closed s, cl_next_obj s + 1) /\
+  quiet o /\ (cl_conn_closed s = false -> len (pack p) <= MaxPacketLen -> ok = true).
+Proof.
+  unfold start_retry, c_new_obj. intros H.
+  destruct bt; cbv zeta in H;
+    match type of H with context [c_send ?X p] =>
+      pose proof (quiet_send X p) as Hq; pose proof (c_send_ok X p) as Hok; destruct (c_send X p) as [o1 ok1] end;
+    injection H as <- <- <- <-; cbn [fst] in Hq;
+    (split; [reflexivity|]; split; [reflexivity|]; split; [reflexivity|]; split; [exact Hq|]);
+    intros Hcc Hl; specialize (Hok Hcc Hl); congruence.
+Qed.
+
+Definition retry_D (cfg : cl_cfg) (kind : N) (st : ct_state) : N :=
+  budget cfg + (if (kind =? 4) && ct_state_eqb st CtAwaitPubrec then budget cfg else 0) + readTimeout.
+
+Lemma retry_start_Good cfg s s' g call kind key st p o ok bt :
+  SI s -> InvA false s -> start_retry cfg s call kind key st p bt = (s', g, o, ok) ->
+  (forall s'', cl_objs s'' = cl_objs s' -> core s'' = core s' ->
+     Good cfg (Some call) s (s'', o) /\
+     (forall pnd, p_id pnd = call -> (p_pub pnd = true -> (kind =? 6) || (kind =? 7) = false) -> cl_now s <= p_progress pnd ->
+                  cl_now s + retry_D cfg kind st <= p_deadline pnd -> cl_cancelled s = None -> Backed cfg s'' pnd) /\
+     (kind = 7 -> p = Disconnect 0 -> cl_cancelled s = None -> ExitB cfg s'' (cl_now s + budget cfg + readTimeout))) /\
+  Good cfg (Some call) s (c_finish_obj s' g, o ++ ret s' call RInvalid).
+Proof.
+  intros Hsi Hia H. destruct (start_retry_facts _ _ _ _ _ _ _ _ _ _ _ _ H) as (-> & Ho & Hc & Hq & _).
+  assert (Hfresh : cl_objs s !! cl_next_obj s = None).
+  { destruct (cl_objs s !! cl_next_obj s) as [tx|] eqn:Ex; [|reflexivity]. pose proof (ia_lt false s Hia _ _ Ex). lia. }
+  assert (Hsi' : SI s').
+  { eapply (SI_snoc s s'); [exact Hc|apply (si_c2 s Hsi)|lia|cbn; lia|exact Hsi]. }
+  split.
+  - intros s'' Eo Ec. assert (Ec' := Ec). rewrite Hc in Ec'. core_inj Ec'.
+    assert (Htm' : forall g', tmr s'' g' = tmr s g' ++ (if cl_next_obj s =? g' then [{| ctm_at := cl_now s + k_rdelay cfg; ctm_seq := cl_next_seq s; ctm_kind := CtmRetry (cl_next_obj s) |}] else [])).
+    { intros g'. apply (tmr_snoc s s'' _ g' Etm). }
+    split; [|split].
+    + apply (Good_new cfg (Some call) s s'' (cl_next_obj s) (CxRetry call kind key st p 0 call) o); try assumption.
+      * eapply SI_ext; [exact Ec|exact Hsi'].
+      * congruence.
+      * intros g' Hn. rewrite Htm'. assert (E' : (cl_next_obj s =? g') = false) by (apply N.eqb_neq; congruence). rewrite E'. apply app_nil_r.
+      * cbn. intros c E. injection E as <-. reflexivity.
+      * destruct Hq as [Hq _]. rewrite Hq. intros ? ? ? [].
+      * apply Hq.
+    + intros pnd Hid Hpub Hpr HD Hca. destruct (si_c2 s Hsi Hca) as (_ & Hex & _).
+      split; [congruence|]. rewrite Eca, Hca. exists (cl_next_obj s), (CxRetry call kind key st p 0 call).
+      split; [rewrite Eo, Ho; apply lookup_insert|]. split; [cbn; congruence|].
+      eexists. split; [rewrite Htm', N.eqb_refl, (tmr_nil_fresh s _ Hsi) by lia; reflexivity|].
+      cbn [ctm_kind ctm_at]. split; [reflexivity|]. split; [exact Hpub|]. pose proof (rest_0 cfg). unfold retry_D in HD. split; lia.
+    + intros -> -> Hca. intros _. rewrite Eca, Hca. exists (cl_next_obj s), (CxRetry call 7 key st (Disconnect 0) 0 call).
+      split; [rewrite Eo, Ho; apply lookup_insert|]. exists call, key, st, 0, call. eexists.
+      split; [reflexivity|]. split; [rewrite Htm', N.eqb_refl, (tmr_nil_fresh s _ Hsi) by lia; reflexivity|].
+      cbn [ctm_kind ctm_at]. split; [reflexivity|]. pose proof (rest_0 cfg). lia.
+  - assert (Hg' : cl_objs s' !! cl_next_obj s = Some (CxRetry call kind key st p 0 call)) by (rewrite Ho; apply lookup_insert).
+    destruct (finish_facts s' _ _ Hg') as (A & B & C & D & E & F & G & Hh & I & J).
+    core_inj Hc. apply Good_inert.
+    + apply SI_finish, Hsi'.
+    + congruence.
+    + congruence.
+    + congruence.
+    + rewrite A, Ho. apply delete_insert, Hfresh.
+    + rewrite B, Etm, filter_app. cbn [List.filter ctm_kind ctimer_obj]. rewrite N.eqb_refl. cbn [negb]. rewrite app_nil_r.
+      apply filter_none_fresh; [exact Hsi|lia].
+    + intros id tt r Hi. rewrite c_ret_times_app in Hi. apply in_app_or in Hi. destruct Hq as [Hq _]. rewrite Hq in Hi.
+      destruct Hi as [[]|[E'|[]]]. injection E' as <- _ _. reflexivity.
+    + rewrite c_exits_app. destruct Hq as [_ Hq]. rewrite Hq. reflexivity.
+Qed.
+
+Lemma Good_ret cfg s call r : SI s -> Good cfg (Some call) s (s, ret s call r).
+Proof.
+  intros Hsi. apply Good_inert; try reflexivity; [exact Hsi|]. intros id tt r' [E|[]]. injection E as <- _ _. reflexivity.
+Qed.
+
+Definition newp (cfg : cl_cfg) (s : cl_state) (id : N) (a : api) : pending :=
+  {| p_id := id; p_deadline := cl_now s + call_bound cfg a; p_progress := cl_now s; p_over := false;
+     p_pub := match a with APublish _ q _ _ | APubPre _ q _ _ => (q =? 1) || (q =? 2) | _ => false end |}.
+
+(* what is to be shown of a call: the micro-step is good, and the call has returned or is backed *)
+Definition CallOk (cfg : cl_cfg) (s : cl_state) (pnd : pending) (r : CR) : Prop :=
+  Good cfg (Some (p_id pnd)) s r /\ (returned (snd r) (p_id pnd) = true \/ Backed cfg (fst r) pnd).
+
+Lemma CallOk_ret cfg s pnd r : SI s -> CallOk cfg s pnd (s, ret s (p_id pnd) r).
+Proof. intros Hsi. split; [apply Good_ret, Hsi|]. left. unfold returned. cbn. rewrite N.eqb_refl. reflexivity. Qed.
+
+Lemma CallOk_ext cfg s s0 pnd r : cl_objs s0 = cl_objs s -> core s0 = core s -> CallOk cfg s0 pnd r -> CallOk cfg s pnd r.
+Proof. intros Ho Hc [H1 H2]. split; [eapply Good_ext; eassumption|exact H2]. Qed.
+
+Lemma returned_ret_r o s call r : returned (o ++ ret s call r) call = true.
+Proof. rewrite returned_app. unfold returned at 2. cbn. rewrite N.eqb_refl. apply orb_true_r. Qed.
+
+Lemma call_simple_ok cfg s pnd kind st mk : SI s -> InvA false s -> cl_cancelled s = None ->
+  p_pub pnd = false -> cl_now s <= p_progress pnd -> cl_now s + retry_D cfg kind st <= p_deadline pnd ->
+  CallOk cfg s pnd (call_simple cfg s (p_id pnd) kind st mk).
+Proof.
+  intros Hsi Hia Hca Hpub Hpr HD. unfold call_simple, c_next_mid.
+  match goal with |- context [start_retry cfg ?X ?c ?k ?ky ?st0 ?p false] =>
+    apply (CallOk_ext cfg s X); [reflexivity|reflexivity|];
+    destruct (start_retry cfg X c k ky st0 p false) as [[[s' g'] o] ok] eqn:E;
+    destruct (retry_start_Good cfg X s' g' c k ky st0 p o ok false) as [H1 H2]; [eapply SI_ext; [|exact Hsi]; reflexivity|apply (invA_frame false s); [reflexivity..|exact Hia]|exact E|]
+  end.
+  destruct ok.
+  - destruct (H1 s' eq_refl eq_refl) as (G1 & G2 & _). split; [exact G1|]. right. cbn [fst]. apply G2; try assumption; try reflexivity.
+    rewrite Hpub. discriminate.
+  - split; [exact H2|]. left. cbn [snd]. apply returned_ret_r.
 Qed.
